@@ -29,5 +29,5 @@ def jobs(tier):
     mk('rw_W_R', 2, 6, [W, R], extra=['USE_RWLOCK'], timeout=900, mem_gb=10)
     mk('rw_R_W', 2, 6, [R, W], extra=['USE_RWLOCK'], timeout=900, mem_gb=10)
     mk('rw_sym2', 2, 7, [S, S], extra=['USE_RWLOCK'], timeout=900, mem_gb=12)
-    if not q: mk('rw_sym3', 3, 9, [S, S, S], extra=['USE_RWLOCK'], timeout=6000, mem_gb=30)
+    if os.environ.get('VERIF_EXPERIMENTAL'): mk('rw_sym3', 3, 9, [S, S, S], extra=['USE_RWLOCK'], timeout=6000, mem_gb=30)
     return J
